@@ -14,7 +14,8 @@ ATTR_LOCALS = ["k", "v2", "label2", "size", "a-b", "ünï"]
 KINDS = list(I.CLS_OF.keys())
 ELEMENTS = ["Entity", "Activity", "Agent"]
 STRINGS = ["", "plain", 'quo"te', "two\nlines", "back\\slash", "tab\there", "ünïcødé", "\U0001F600 astral", "  spaced ",
-           "<a&b>", "'single'", '"""', "a:b", "1", "true"]
+           "<a&b>", "'single'", '"""', "a:b", "1", "true", 'multi\n"quoted" line', 'ends with a quote\n"',
+           'a\n"""\nb\\', "\n", "cr\r\nlf"]
 INTS = [0, 1, -1, 7, 2**31, -2**63, 10**40, 255]
 FLOATS = [0.5, -2.25, 1e300, 5e-324, 0.1, 3.0, 123456.789, 1.7976931348623157e308, -0.0, 2.5e-8]
 TIMES = [("2012", "3", "31", "9", "21", "0", "0", "none"), ("2012", "3", "31", "9", "21", "0", "0", "0"),
@@ -396,6 +397,10 @@ class Gen:
         k = self.rng.random()
         if k < 0.6:
             e = self.existing_id(c)
+            if self.rng.random() < 0.3:
+                # an identifier of a sibling container (the enclosing document, another bundle): absent here
+                sib = self.rng.choice([x for x in self.crefs() if x[1] == c[1]])
+                e = self.existing_id(sib) or e
             arg = e if (e is not None and self.rng.random() < 0.8) else self.name(c)
             if self.rng.random() < 0.03:
                 arg = "none"
@@ -465,3 +470,26 @@ def generate(seed, n_ops, profile="mixed", observe_each=True):
     g = Gen(rng, profile)
     g.observe_each = observe_each
     return g.run(n_ops)
+
+
+def string_sweep(alphabet, maxlen):
+    """all strings over the alphabet up to the length (the systematic family for the escaping functions)"""
+    out, layer = [""], [""]
+    for _ in range(maxlen):
+        layer = [x + c for x in layer for c in alphabet]
+        out.extend(layer)
+    return out
+
+
+def string_sweep_programs(strings, per_prog=60, export=("ExportProvn",)):
+    """programs that put every string of the family on an entity as a plain value and as a language-tagged label, then export"""
+    progs_ = []
+    for i in range(0, len(strings), per_prog):
+        ops = [["NewDoc"], ["AddNs", ["d", "0"], "ex", "http://example.org/"]]
+        for j, st in enumerate(strings[i:i + per_prog]):
+            ops.append(["NewRecord", ["d", "0"], "Entity", ["S", "ex:s%d" % j],
+                        [[["S", "ex:k"], ["str", st]], [["S", "prov:label"], ["lit", st, "none", ["some", "en"]]]]])
+        for e in export:
+            ops.append([e, "0"])
+        progs_.append(ops)
+    return progs_
